@@ -36,8 +36,8 @@ CAP = ("cinv(runner.capture_controller, sys) and is_none(runner.capture_controll
        "and sys.stdout is old(sys.stdout) and sys.stderr is old(sys.stderr)")
 CTX = ("G_ctx_scenario is self and (is_none(G_ctx_feature) or typeof_is(G_ctx_feature, 'Feature')) and (G_ctx_rule is ABSENT or typeof_is(G_ctx_rule, 'Rule')) "
        "and G_ctx_depth == old(G_ctx_depth) + 1")
-HOOKMOD = ["G_nhooks", "G_hook_name", "G_hook_arg", "G_bad", "G_ctx_aborted", "runner.hook_failures", "*.hook_failed", "*.error_message", "*.exception", "*.exc_traceback"]
-STEPMOD = ["G_bad", "G_nhooks", "G_hook_name", "G_hook_arg", "G_ncalls", "G_calls", "G_nev", "G_ev_kind", "G_ev_arg", "G_ev_status",
+HOOKMOD = ["G_nhooks", "G_hook_name", "G_hook_arg", "G_hook_out", "G_hook_err", "G_bad", "G_ctx_aborted", "runner.hook_failures", "*.hook_failed", "*.error_message", "*.exception", "*.exc_traceback"]
+STEPMOD = ["G_bad", "G_nhooks", "G_hook_name", "G_hook_arg", "G_hook_out", "G_hook_err", "G_ncalls", "G_calls", "G_nev", "G_ev_kind", "G_ev_arg", "G_ev_status",
            "G_ctx_aborted", "*.status", "*.hook_failed", "*.duration", "*.exception", "*.exc_traceback",
            "*.error_message", "*.captured", "*.should_skip", "*.skip_reason", "*._cached_status",
            "runner.hook_failures", "list(runner._undefined_steps)", "runner.capture_controller.old_stdout",
@@ -126,7 +126,7 @@ contract(M + "Scenario.run", props=P,
          assume={"step-list-is-not-the-runners-undefined-list": "all_steps_of(self) is not runner._undefined_steps",
                  "steps-of-a-scenario-are-distinct-objects":
                  "forall(lambda k: implies(0 <= k < len(%s), step_rank(%s[k]) == k))" % (STEPS, STEPS)},
-         modifies=["G_bad", "G_nhooks", "G_hook_name", "G_hook_arg", "G_ncalls", "G_calls", "G_nev", "G_ev_kind",
+         modifies=["G_bad", "G_nhooks", "G_hook_name", "G_hook_arg", "G_hook_out", "G_hook_err", "G_ncalls", "G_calls", "G_nev", "G_ev_kind",
                    "G_ev_arg", "G_ev_status", "G_ctx_aborted", "G_ctx_scenario", "G_ctx_depth", "G_ctx_saved_scenario", "G_ctx_rule", "G_ctx_saved_rule",
                    "G_npops", "G_ncleanup_runs", "G_log_installed", "G_ctx_writes",
                    "*.status", "*.hook_failed", "*.duration", "*.exception",
